@@ -10,10 +10,12 @@ Driver ops for C20 (object life-cycle models):
   reply: one field per op, separated by " ; ":
         <ok|ExceptionClass> # <result tokens> # R=<hidden attrs read> # W=<attrs written, in order>
 
-  asm  <offsetZero1> <offsetZero2> <connGiven> | <op> ...     (see Model/Lifecycle.lean, namespace Asm)
-  bay  <modelGiven> <has1d> <betaGiven> | <op> ...
-  cone <fcGiven> <nxxGiven> | <op> ...
-  reply: <ok|ExceptionClass|SEGV> # <result token>  per op
+  asm  <panel-1 definition (16 fields)> / <panel-2 definition> / <connGiven> | <op> ...
+     op ∈ size k0:<other> kG0 kG kM kT fint fext conn:<other> uvw strain stress   (<other>: a conn list is passed)
+     reply per op: <ok|Exc> # <tokens 1> / <tokens 2> / <conn token> # R1=.. # W1=.. # R2=.. # W2=..
+  bay  <modelGiven> <stiffened flat bay> | <op> ...        op ∈ size k0 kG0 kM kA cA fext uvw          reply per op: <ok|Exc>
+  cone <fcGiven> <rebuilt> | <op> ... op ∈ size k0 lb static fext fint kT uvw strain stress
+     reply per op: <ok|TypeError|SEGV> # <axial-load provenance consumed: - unset zero user one>
 -/
 import CompmechVerif.Model.Lifecycle
 import CompmechVerif.Drv.Proto
@@ -30,6 +32,7 @@ def showErr : Err → String
   | .ValueError => "ValueError" | .KeyError => "KeyError" | .TypeError => "TypeError"
   | .RuntimeError => "RuntimeError" | .AttributeError => "AttributeError"
   | .NotImplementedError => "NotImplementedError" | .NameError => "NameError"
+  | .AssertionError => "AssertionError"
 
 namespace P
 open Compmech.Lifecycle.Panel
@@ -136,9 +139,122 @@ def handle (rest : String) : String :=
 
 end P
 
+namespace A
+open Compmech.Lifecycle.Panel Compmech.Lifecycle.Asm
+
+def op? (s : String) : Option AOp :=
+  match s.splitOn ":" with
+  | ["size"] => some .size
+  | ["k0", b] => (bool? b).map .k0
+  | ["kG0"] => some .kG0
+  | ["kG"] => some .kG
+  | ["kM"] => some .kM
+  | ["kT"] => some .kT
+  | ["fint"] => some .fint
+  | ["fext"] => some .fext
+  | ["conn", b] => (bool? b).map .conn
+  | ["uvw"] => some .uvw
+  | ["strain"] => some .strain
+  | ["stress"] => some .stress
+  | _ => none
+
+def showToks (l : List Tok) : String := "+".intercalate (l.map P.showTok)
+
+def showConn : Option ConnTok → String
+  | none => "-"
+  | some t => (match t.id with | .own => "own" | .other => "other") ++ "{" ++ showToks t.t1 ++ "|" ++ showToks t.t2 ++ "}"
+
+def showLog (tag : String) (l : Log) : String :=
+  s!"R{tag}=" ++ ",".intercalate ((P.dedup l.rd).map P.showAttr) ++ s!" # W{tag}=" ++
+    ",".intercalate ((P.dedup l.wr).map P.showAttr)
+
+def runSeq (a : ADef) : AState → List AOp → List String
+  | _, [] => []
+  | s, op :: ops =>
+    let r := astep a s op
+    let lg := alog a s op
+    let oc := match r.2 with
+      | .ok r1 r2 c => "ok # " ++ showToks r1 ++ " / " ++ showToks r2 ++ " / " ++ showConn c
+      | .err e => showErr e ++ " # "
+    (oc ++ " # " ++ showLog "1" lg.1 ++ " # " ++ showLog "2" lg.2) :: runSeq a r.1 ops
+
+def handle (rest : String) : String :=
+  match fields rest with
+  | [ds, os] =>
+    match (ds.splitOn "/").map words, (words os).mapM op? with
+    | [w1, w2, [cg]], some ops =>
+      match P.def? w1, P.def? w2, bool? cg with
+      | some d1, some d2, some cg =>
+        let a : ADef := ⟨d1, d2, cg⟩
+        " ; ".intercalate (runSeq a (afresh a) ops)
+      | _, _, _ => "err parse-def"
+    | _, none => "err parse-op"
+    | _, _ => "err parse-defs"
+  | _ => "err parse-fields"
+
+end A
+
+namespace B
+open Compmech.Lifecycle.Bay
+
+def op? : String → Option BOp
+  | "size" => some .size | "k0" => some .k0 | "kG0" => some .kG0 | "kM" => some .kM | "kA" => some .kA
+  | "cA" => some .cA | "fext" => some .fext | "uvw" => some .uvw | _ => none
+
+def runSeq (d : BDef) : BState → List BOp → List String
+  | _, [] => []
+  | s, op :: ops =>
+    let r := bstep d s op
+    (match r.2 with
+      | .ok _ => "ok"
+      | .err e => showErr e) :: runSeq d r.1 ops
+
+def handle (rest : String) : String :=
+  match fields rest with
+  | [ds, os] =>
+    match (words ds).mapM bool?, (words os).mapM op? with
+    | some [mg, sf], some ops => " ; ".intercalate (runSeq ⟨mg, sf⟩ (bfresh ⟨mg, sf⟩) ops)
+    | _, _ => "err parse"
+  | _ => "err parse-fields"
+
+end B
+
+namespace C
+open Compmech.Lifecycle.Cone
+
+def op? : String → Option COp
+  | "size" => some .size | "k0" => some .k0 | "lb" => some .lb | "static" => some .static | "fext" => some .fext
+  | "fint" => some .fint | "kT" => some .kT | "uvw" => some .uvw | "strain" => some .strain
+  | "stress" => some .stress | _ => none
+
+def showNxx : Option Nxx → String
+  | none => "-" | some .unset => "unset" | some .zero => "zero" | some .user => "user" | some .one => "one"
+
+def runSeq : CState → List COp → List String
+  | _, [] => []
+  | s, op :: ops =>
+    let r := cstep s op
+    (match r.2 with
+      | .ok _ l => "ok # " ++ showNxx l
+      | .err .TypeError => "TypeError # -"
+      | .err .SEGV => "SEGV # -") :: runSeq r.1 ops
+
+def handle (rest : String) : String :=
+  match fields rest with
+  | [ds, os] =>
+    match (words ds).mapM bool?, (words os).mapM op? with
+    | some [fg, rb], some ops => " ; ".intercalate (runSeq (cfresh ⟨fg, rb⟩) ops)
+    | _, _ => "err parse"
+  | _ => "err parse-fields"
+
+end C
+
 def handle (op : String) (rest : String) : String :=
   match op with
   | "panel" => P.handle rest
+  | "asm" => A.handle rest
+  | "bay" => B.handle rest
+  | "cone" => C.handle rest
   | _ => "err unknown-op"
 
 end Compmech.Drv.C20
